@@ -1,5 +1,6 @@
-/- Driver glue for C17 (instantiating constants): model outputs, specification outputs and the
-   decidable hypotheses of the `_partial` theorems, on the implementation's actual tables. -/
+/- Driver glue for C17 (instantiating constants): model outputs (for the variant of the code —
+   as it is / with the proposed repairs — that the harness found by probing), specification
+   outputs and the decidable hypotheses of the theorems, on the implementation's actual tables. -/
 import PS.Drv.Wire
 import PS.Model.InstConst
 namespace PS.C17
@@ -75,45 +76,66 @@ def encOptList (l : Option (List Prog)) : Sexp :=
   | none => .list [.atom "none"]
   | some ps => .list (.atom "some" :: ps.map encProg)
 
+/-- `(f2 f3 f4)`: which repairs the implementation under test contains (probed by the harness) -/
+def decFix : Sexp → Option Fix
+  | .list [a, b, c] => do
+      let a ← a.nat?
+      let b ← b.nat?
+      let c ← c.nat?
+      pure ⟨a != 0, b != 0, c != 0⟩
+  | _ => none
+
 def handle : Sexp → Option Sexp
-  | .list [.atom "c17.det", g, tg, tb, .list templates, .list cands] => do
+  | .list [.atom "c17.det", fxs, g, tg, tb, .list templates, .list cands] => do
+      let fx ← decFix fxs
       let G ← decCFG g
       let tags ← decTags tg
       let tbl ← decTbl tb
       let templates ← allSome decProg templates
       let cands ← allSome decProg cands
-      let G' := inst G tbl
-      let tags' := instTags tags tbl
-      let hyps := [rulesOK tbl G.rules, rulesOK tbl tags, rulesNonEmpty tbl G.rules, rulesNonEmpty tbl tags]
+      let G' := inst fx G tbl
+      let tags' := instTags fx tags tbl
+      -- hypotheses of the generic `_partial` theorems for this `fx`, then those of the theorems for
+      -- the repaired code (`grammarWF`, `tagsWF`, `grammarWF` of the tags, `slotsNonEmpty` ×2)
+      let hyps := [rulesOK fx tbl G.rules, rulesOK fx tbl tags, rulesNonEmpty fx tbl G.rules,
+                   rulesNonEmpty fx tbl tags,
+                   grammarWF tbl G.rules, tagsWF tbl G.rules tags, grammarWF tbl tags,
+                   slotsNonEmpty tbl G.rules, slotsNonEmpty tbl tags]
+      -- the template of a candidate, with respect to the part of the table that matters
+      let e := restrict (slotTys G.rules) tbl
       pure (.list [
         .list (hyps.map ofBool),
         encCFG G', encTags tags',
         .list ((rowSums tags).map encRat), .list ((rowSums tags').map encRat),
         .list (templates.map fun t =>
-          let l := allInst tbl t
-          .list [ofBool (gen G t G.start), encRat (prob G tags t G.start), ofBool (progOK tbl t), encOptList l,
+          let l := allInst fx tbl t
+          .list [ofBool (gen G t G.start), encRat (prob G tags t G.start), ofBool (progOK fx tbl t), encOptList l,
                  encRat (rsum ((l.getD []).map fun t' => prob G' tags' t' G'.start)),
                  ofBool ((l.getD []).all fun t' => isInst tbl t t')]),
         .list (cands.map fun t' =>
           .list [ofBool (contains G' t'), ofBool (gen G' t' G'.start),
                  encRat (probability G' tags' t'), encRat (prob G' tags' t' G'.start),
-                 encProg (templ tbl t'), ofBool (gen G (templ tbl t') G.start),
-                 ofBool (isInst tbl (templ tbl t') t'),
-                 encRat (probability G tags (templ tbl t'))])])
-  | .list [.atom "c17.prog", tb, t, .list cands] => do
+                 encProg (templ e t'), ofBool (gen G (templ e t') G.start),
+                 ofBool (isInst tbl (templ e t') t'),
+                 encRat (probability G tags (templ e t'))])])
+  | .list [.atom "c17.prog", fxs, tb, t, .list cands] => do
+      let fx ← decFix fxs
       let tbl ← decTbl tb
       let t ← decProg t
       let cands ← allSome decProg cands
-      pure (.list [ofBool (progOK tbl t), encOptList (allInst tbl t),
+      pure (.list [ofBool (progOK fx tbl t), encOptList (allInst fx tbl t),
                    .list (cands.map fun c => ofBool (isInst tbl t c))])
-  | .list [.atom "c17.u", r, tg, tb] => do
+  | .list [.atom "c17.u", fxs, r, tg, tb] => do
+      let fx ← decFix fxs
       let R ← decUTable r
       let tags ← decUTags tg
       let tbl ← decTbl tb
-      let tags' := instUTags tags tbl
+      let tags' := instUTags fx tags tbl
       pure (.list [
-        .list ([rulesOK tbl R, rulesOK tbl tags, rulesNonEmpty tbl R, rulesNonEmpty tbl tags].map ofBool),
-        encUTable (instU R tbl), encUTags tags',
+        .list ([rulesOK fx tbl R, rulesOK fx tbl tags, rulesNonEmpty fx tbl R, rulesNonEmpty fx tbl tags,
+                grammarWF tbl R, tagsWF tbl R tags, grammarWF tbl tags,
+                slotsNonEmpty tbl R, slotsNonEmpty tbl tags].map ofBool),
+        encUTable (instU fx R tbl), encUTags tags',
         .list ((uRowSums tags).map encRat), .list ((uRowSums tags').map encRat)])
   | _ => none
 
